@@ -107,3 +107,4 @@ known("C16","C16-placeholder-validation-by-substring","supplied-vs-used validati
 known("C16","C16-key-condition-shape-not-validated","Query executes any condition given as KeyConditionExpression: conditions without the partition key, inequalities or functions on the partition key, OR / NOT, non-key attributes, two sort-key conditions, <> / contains / attribute_exists on the sort key, and a missing key condition are all evaluated per item like a filter (Table.matchKey never compares the condition's shape with the key schema); adding a shape validator is a new component rather than a small repair",
  ["C16|key-condition|%s|invalid-shape-executed@%s" % (w, d) for w in ("base", "index") for d in ("v1", "v2")],
  {"op":"Query KeyConditionExpression 'h = :h OR r = :r' -> executed and returns items"})
+fixed("C20","C20-native-key-sorted-characters","native matchers and updaters are looked up by the expression text","a native matcher/updater registered for 'a = :v' also fired for ':v = a' (lookup key = sorted characters) and did not fire for the same text with repeated blanks")
